@@ -78,6 +78,14 @@ func (s *Sched) Register(name string) {
 	s.mu.Unlock()
 }
 
+// Exempt marks the calling goroutine (the explorer itself) as never parked.
+func (s *Sched) Exempt() {
+	id, _, _ := gid()
+	s.mu.Lock()
+	s.names[id] = "@explorer"
+	s.mu.Unlock()
+}
+
 // Gate parks the calling goroutine until the explorer releases it (no-op in pass-through mode).
 func (s *Sched) Gate(label string) {
 	if s == nil || !s.On {
@@ -85,6 +93,10 @@ func (s *Sched) Gate(label string) {
 	}
 	id, createdBy, parent := gid()
 	s.mu.Lock()
+	if n, ok := s.names[id]; ok && strings.HasPrefix(n, "@") {
+		s.mu.Unlock()
+		return
+	}
 	p := &Parked{Label: label, release: make(chan struct{})}
 	if name, ok := s.names[id]; ok {
 		p.Activity = name
